@@ -6,6 +6,7 @@ from .lib.facts import VERIF, AnalysisBroken
 
 SELECT = r'^bluetoe::(pairing_no_output|pairing_numeric_output)::|^bluetoe::details::(io_capabilities_matrix|security_manager_base|security_manager_impl)::'
 UNITS = lambda u: u in ('w_inst_sm',) or u.startswith('t_security_manager')
+EXACT = ('legacy-method-table', 'lesc-method-table')   # verdicts computed from the meaning of the code (compiler / folding / symbolic terms): not gated by the golden structure
 META = {
     'level': 'table extraction: the decision lists select_legacy_pairing_algorithm / select_lesc_pairing_algorithm / get_io_capabilities of the two output-capability classes '
              '(3 input-capability overloads each) are folded for each of the 5 remote IO capabilities and compared cell by cell with the Core specification tables (Vol 3 Part H, '
